@@ -343,3 +343,62 @@ func VP_C02_shapes() {
 	}
 	vp.Cover("end")
 }
+
+// long lists of values that hold references: 1100 and 33000 elements (beyond
+// 2^15; thorough also structs with an omitted field): every element comes back
+// with its own value and the carriers re-encode byte for byte.
+func VP_C02_long_lists() {
+	n := []int{1100, 33000}[vp.Choice(2)]
+	vp.SizeBound(2*n + 64)
+	vp.Unwind(n + 64)
+	vp.MaxSteps(900000000)
+	asStruct := vp.Tier() == 1 && vp.Choice(2) == 1
+	if asStruct {
+		// list of compounds: {a:<int>} or {} alternating, arbitrary values at the end
+		doc := append([]byte{TagList, TagCompound}, vpBE(uint64(n), 4)...)
+		want := make([]vpOm, n)
+		for i := range want {
+			if i%2 == 0 || i == n-2 {
+				want[i].A = int32(i + 1)
+				if i >= n-3 {
+					want[i].A = vp.Int32()
+					vp.Assume(want[i].A != 0)
+				}
+				doc = append(doc, vpTagHdr(TagInt, "a")...)
+				doc = append(doc, vpBE(uint64(uint32(want[i].A)), 4)...)
+			}
+			doc = append(doc, 0)
+		}
+		var g []vpOm
+		d := NewDecoder(&vpByteReader{b: doc})
+		d.NetworkFormat(true)
+		_, err := d.Decode(&g)
+		vp.Assert(err == nil && len(g) == n, "decoding succeeds")
+		for i := range want {
+			vp.Assert(g[i] == want[i], "long list of structs: every element has its own value")
+		}
+		vp.Cover("end")
+		return
+	}
+	doc := append([]byte{TagList, TagByte}, vpBE(uint64(n), 4)...)
+	vals := make([]byte, n)
+	for i := range vals {
+		vals[i] = byte(i * 7)
+	}
+	vals[0], vals[n-3], vals[n-2], vals[n-1] = vp.Byte(), vp.Byte(), vp.Byte(), vp.Byte()
+	doc = append(doc, vals...)
+	var g []RawMessage
+	d := NewDecoder(&vpByteReader{b: doc})
+	d.NetworkFormat(true)
+	_, err := d.Decode(&g)
+	vp.Assert(err == nil && len(g) == n, "decoding succeeds")
+	for i := range g {
+		vp.Assert(g[i].Type == TagByte && len(g[i].Data) == 1 && g[i].Data[0] == vals[i], "long list of carriers: every element has its own value")
+	}
+	var w vpBuf
+	e := NewEncoder(&w)
+	e.NetworkFormat(true)
+	vp.Assert(e.Encode(g, "") == nil, "Encode err==nil")
+	vp.Assert(string(w.b) == string(doc), "long list of carriers re-encodes byte for byte")
+	vp.Cover("end")
+}
